@@ -7,6 +7,7 @@ import (
 	"fmt"
 	"math/big"
 	"sort"
+	"time"
 
 	"github.com/Oneledger/protocol/action"
 	ethcrypto "github.com/ethereum/go-ethereum/crypto"
@@ -53,6 +54,8 @@ type Gen struct {
 	olvmNonce map[int]uint64 // next nonce per Ethereum-keyed account, as far as the generator can tell
 	olvmCodes []keys.Address // addresses at which the generator believes it has created a contract
 	olvmAfter int            // 1+index of the sender whose next transaction follows a rejected one at once, 0 = none
+	Bids      []*genBid      // bid conversations the generator believes it has opened (bid.go)
+	Now       time.Time      // header time of the last executed block, when the engine tells (zero: unknown; deadlines are then drawn from the height)
 }
 
 // genExt is one submitted Ethereum-side transaction and who has reported on it.
@@ -129,13 +132,14 @@ type Weights struct {
 	Transfer, Staking, Deleg, Rewards, Gov, Evidence, Ons int
 	Eth                                                   int // only drawn when the world's genesis carries an ETH chain-driver option
 	Olvm                                                  int // only drawn when the world has Ethereum-keyed accounts and the fork is active
+	Bid                                                   int // the bid application of external_apps (offers on ONS names)
 }
 
-func AllWeights() Weights { return Weights{10, 8, 10, 4, 12, 6, 10, 14, 22} }
+func AllWeights() Weights { return Weights{10, 8, 10, 4, 12, 6, 10, 14, 22, 12} }
 
 // Next produces one transaction.
 func (g *Gen) Next(wt Weights) GenTx {
-	tot := wt.Transfer + wt.Staking + wt.Deleg + wt.Rewards + wt.Gov + wt.Evidence + wt.Ons
+	tot := wt.Transfer + wt.Staking + wt.Deleg + wt.Rewards + wt.Gov + wt.Evidence + wt.Ons + wt.Bid
 	if g.W.P.ETH != nil && g.W.P.Witnesses > 0 && wt.Eth > 0 {
 		if g.R.Intn(tot+wt.Eth) >= tot {
 			return g.eth()
@@ -160,8 +164,10 @@ func (g *Gen) Next(wt Weights) GenTx {
 		return g.gov()
 	case x < wt.Transfer+wt.Staking+wt.Deleg+wt.Rewards+wt.Gov+wt.Evidence:
 		return g.evidence()
-	default:
+	case x < wt.Transfer+wt.Staking+wt.Deleg+wt.Rewards+wt.Gov+wt.Evidence+wt.Ons:
 		return g.ons()
+	default:
+		return g.bid()
 	}
 }
 
